@@ -78,8 +78,22 @@ def targeted_case(g, j):
     parameter whose context value is None; a list key rewritten element-wise equal."""
     k = g.rng.choice(["factor", "addend", "a", "seen"])
     v = g.rng.choice([1, 2, 3])
-    pat = j % 4
-    if pat == 0:
+    pat = j % 7
+    if pat == 4:
+        # ONE processor class used by several nodes of the run with different parameter placements: context first, then
+        # (the key being gone) the node configuration
+        nodes = [{"processor": "VSrc", "parameters": {"value": float(v)}}, {"processor": "VMul"}, {"processor": "delete:factor"},
+                 {"processor": "VMul", "parameters": {"factor": 3.0}}, {"processor": "VCtxScale", "parameters": {"base": 2.0}}, {"processor": "VCtxScale"}]
+        ctx = {"factor": 2.0, "base": 1.5}
+    elif pat == 5:
+        # ... configuration first, then a node of the same class that needs the key from a context that lacks it (fails there)
+        nodes = [{"processor": "VSrc", "parameters": {"value": float(v)}}, {"processor": "VMul", "parameters": {"factor": 3.0}}, {"processor": "VMul"}]
+        ctx = {}
+    elif pat == 6:
+        nodes = [{"processor": "VSrc", "parameters": {"value": float(v)}}, {"processor": "VCtxScale", "parameters": {"base": 2.0}}, {"processor": "VCtxScale"},
+                 {"processor": "VScaledProbe", "context_key": "p1", "parameters": {"scale": 2.0}}, {"processor": "VScaledProbe", "context_key": "p2"}]
+        ctx = {}
+    elif pat == 0:
         nodes = [{"processor": "VSrc", "parameters": {"value": float(v)}}, {"processor": "VValueProbe", "context_key": k},
                  {"processor": "VAddDefault"}]
         ctx = {k: v}
